@@ -17,6 +17,27 @@ def handle (line : String) : Json :=
         let T := if getStr? j "mode" == some "spec" then Reference.tables else Generated.tables
         Json.mkObj [("out", Json.arr (runProg T ops).toArray)]
       | none => errJson .badOp
+    | some "consts" =>
+      -- Spec oracle for C08: does a reported constant agree with the reference table?
+      match getArr? j "consts" with
+      | some cs =>
+        let parsed := cs.mapM fun (c : Json) => do
+          let name ← getStr? c "name"
+          let value ← getRat? c "value"
+          let unit ← getStr? c "unit"
+          let aliases ← match getField? c "aliases" with
+            | some (.arr a) => a.toList.mapM fun (x : Json) => match x with | .str s => some s | _ => none
+            | _ => none
+          pure ({ name := name, value := value, unit := unit, aliases := aliases } : Const)
+        match parsed with
+        | some l => Json.mkObj [
+            ("each", Json.arr (l.map fun c => Json.bool (Reference.constOk c)).toArray),
+            ("table", Json.bool (Reference.tableOk l)),
+            ("generated", Json.arr (Generated.constants.map fun c => Json.mkObj [
+                ("name", Json.str c.name), ("value", ratToJson c.value), ("unit", Json.str c.unit),
+                ("aliases", Json.arr (c.aliases.map Json.str).toArray)]).toArray)]
+        | none => errJson .badOp
+      | none => errJson .badOp
     | _ => errJson .badOp
 
 partial def loop (hin : IO.FS.Stream) (hout : IO.FS.Stream) : IO Unit := do
